@@ -366,11 +366,11 @@ def rule_E1(ctx, rep, rid='E1'):
                 rep.ob(rid, '%s/send-failure-is-error' % name, ok, body.where(bi),
                        'a failed send yields Err' if ok else 'write returns %s' % [fmt(x) for x in rts])
                 continue
-            rts = ret_terms(T, err_e)
-            ok = bool(rts) and all(r[0] == 'adt' and r[2] == 'Err' for r in rts)
+            rts = ret_terms(T, err_e, known={ct: 'Err'})
+            ok = bool(rts) and all((r[0] == 'adt' and r[2] == 'Err') or r == ct for r in rts)
             rep.ob(rid, '%s/send-failure-is-error' % name, ok, body.where(bi),
                    'every refusal (Full/Disconnected/io error) is returned as Err' if ok else
                    'a refused send can return %s' % [fmt(x) for x in rts if not (x[0] == 'adt' and x[2] == 'Err')])
-            rto = ret_terms(T, ok_e)
-            ok = bool(rto) and all(r[0] == 'adt' and r[2] == 'Ok' for r in rto)
+            rto = ret_terms(T, ok_e, known={ct: 'Ok'})
+            ok = bool(rto) and all((r[0] == 'adt' and r[2] == 'Ok') or r == ct for r in rto)
             rep.ob(rid, '%s/send-success-is-ok' % name, ok, body.where(bi), 'Ok only when the send succeeded' if ok else 'returns %s after success' % [fmt(x) for x in rto])
